@@ -10,6 +10,7 @@ import (
 	"fmt"
 	"os"
 	"os/exec"
+	"path/filepath"
 	"sort"
 	"strings"
 	"sync"
@@ -124,12 +125,13 @@ func (s *Stats) Merge(o *Stats) {
 type budget struct{ p, d int }
 
 type explorer struct {
-	sc      *Scenario
-	opt     Options
-	st      *Stats
-	visited map[uint64]budget
-	useC    bool
-	stack   [][]int
+	sc       *Scenario
+	opt      Options
+	st       *Stats
+	visited  map[uint64]budget
+	useC     bool
+	stack    [][]int
+	raceSeen int
 }
 
 // runOnce executes the scenario following prefix, then the default move.
@@ -217,6 +219,13 @@ func (ex *explorer) visit(prefix []int) [][]int {
 		st.Horizon++
 	}
 	st.Leaked += int64(e.Leaked)
+	if vsched.RaceMode {
+		if n := vsched.RaceErrors(); n > ex.raceSeen {
+			ex.raceSeen = n
+			b, _ := json.Marshal(map[string]any{"scenario": ex.sc.Name, "choices": e.Choices})
+			fmt.Fprintf(os.Stderr, "\nVSCHED-RACE-AT %s\n", b)
+		}
+	}
 	if pruned {
 		st.Pruned++
 	} else {
@@ -550,4 +559,148 @@ func runWorker(req workerReq) (*Stats, error) {
 		return nil, fmt.Errorf("worker for %s: bad output: %v", req.Scenario, err)
 	}
 	return &st, nil
+}
+
+// ---- race mode ----
+
+// RaceReport is one data race reported by the race detector during a
+// race-mode exploration, with the schedule that was executing.
+type RaceReport struct {
+	Sites    [2]string // innermost frames of the two accesses inside the code under test
+	Harness  bool      // an access belongs to the harness or engine (an engine error, not a finding)
+	Choices  []int
+	Scenario string
+	Text     string
+}
+
+func (r *RaceReport) Sig() string {
+	a, b := r.Sites[0], r.Sites[1]
+	if b < a {
+		a, b = b, a
+	}
+	return a + "|" + b
+}
+
+// RaceBinary is the path of the race-detector build of this program.
+func RaceBinary() string {
+	if p := os.Getenv("VERIF_RACE_BIN"); p != "" {
+		return p
+	}
+	return filepath.Join(os.Getenv("VERIF_SCRATCHDIR"), "vh-race")
+}
+
+// RaceRun explores sc in a worker process built with the race detector
+// (norace hand-offs: no happens-before edges other than the program's own)
+// and returns the exploration statistics and the races reported.
+func RaceRun(prop string, sc *Scenario, opt Options, iterative bool, roots [][]int) (*Stats, []RaceReport, error) {
+	cmd := exec.Command(RaceBinary(), "-worker")
+	cmd.Env = append(os.Environ(), "GOMAXPROCS=2", "GOGC=400", "GORACE=halt_on_error=0 atexit_sleep_ms=0 history_size=2")
+	in, _ := json.Marshal(workerReq{Prop: prop, Scenario: sc.Name, Opt: opt, Iterative: iterative, Roots: roots})
+	cmd.Stdin = strings.NewReader(string(in))
+	var errb strings.Builder
+	cmd.Stderr = &errb
+	out, err := cmd.Output()
+	reports := ParseRaces(errb.String())
+	if err != nil {
+		if len(reports) == 0 {
+			return nil, nil, fmt.Errorf("race worker for %s failed: %v\n%s", sc.Name, err, tailStr(errb.String(), 2000))
+		}
+	}
+	var st Stats
+	if len(out) > 0 {
+		if jerr := json.Unmarshal(out, &st); jerr != nil {
+			return nil, reports, fmt.Errorf("race worker for %s: bad output: %v", sc.Name, jerr)
+		}
+	}
+	return &st, reports, nil
+}
+
+func tailStr(s string, n int) string {
+	if len(s) > n {
+		return s[len(s)-n:]
+	}
+	return s
+}
+
+// ParseRaces extracts the race detector's reports and the VSCHED-RACE-AT
+// markers that follow them from a worker's stderr.
+func ParseRaces(stderr string) []RaceReport {
+	var out []RaceReport
+	var pending []RaceReport
+	lines := strings.Split(stderr, "\n")
+	for i := 0; i < len(lines); i++ {
+		l := lines[i]
+		if strings.HasPrefix(l, "VSCHED-RACE-AT ") {
+			var m struct {
+				Scenario string
+				Choices  []int
+			}
+			json.Unmarshal([]byte(strings.TrimPrefix(l, "VSCHED-RACE-AT ")), &m)
+			for _, r := range pending {
+				r.Scenario, r.Choices = m.Scenario, m.Choices
+				out = append(out, r)
+			}
+			pending = nil
+			continue
+		}
+		if !strings.HasPrefix(l, "WARNING: DATA RACE") {
+			continue
+		}
+		var r RaceReport
+		j := i + 1
+		var block []string
+		for ; j < len(lines) && !strings.HasPrefix(lines[j], "=================="); j++ {
+			block = append(block, lines[j])
+		}
+		r.Text = strings.Join(block, "\n")
+		// the two access stacks: from "Read at"/"Write at" and "Previous read/write at" up to the blank line
+		idx := 0
+		for k := 0; k < len(block) && idx < 2; k++ {
+			b := block[k]
+			if strings.Contains(b, " at 0x") && (strings.HasPrefix(b, "Read at") || strings.HasPrefix(b, "Write at") || strings.HasPrefix(b, "Previous read at") || strings.HasPrefix(b, "Previous write at") || strings.HasPrefix(b, "Atomic") || strings.HasPrefix(b, "Previous atomic")) {
+				site, harness := "", false
+				first := true
+				for k++; k < len(block) && strings.TrimSpace(block[k]) != ""; k += 2 {
+					fn := strings.TrimSpace(block[k])
+					if p := strings.Index(fn, "("); p > 0 && strings.HasSuffix(fn, ")") {
+						// strip the argument list
+						if q := strings.LastIndex(fn, "("); q > 0 {
+							fn = fn[:q]
+						}
+					}
+					inModule := strings.Contains(fn, "github.com/frobnitzem/go-p9p")
+					isHarness := strings.Contains(fn, "/zzverif/")
+					if first && isHarness && !strings.Contains(fn, "/zzverif/vsync.") && !strings.Contains(fn, "/zzverif/vsched.") {
+						harness = true
+					}
+					if inModule && !isHarness {
+						first = false
+						if site == "" {
+							site = strings.TrimPrefix(fn, "github.com/frobnitzem/go-p9p")
+							site = strings.TrimPrefix(site, "/")
+							if site != "" && site[0] == '.' {
+								site = "p9p" + site
+							}
+						}
+					} else if first && !inModule {
+						// runtime / standard library frame on top of the code under test: keep looking
+						continue
+					}
+					first = false
+				}
+				if site == "" {
+					site = "?"
+					harness = true
+				}
+				r.Sites[idx] = site
+				r.Harness = r.Harness || harness
+				idx++
+			}
+		}
+		pending = append(pending, r)
+		i = j
+	}
+	// reports with no marker after them (the worker died): keep them, without a schedule
+	out = append(out, pending...)
+	return out
 }
